@@ -65,9 +65,14 @@ CFG = PropCfg(
     "C07", "HopModel.Props.C07",
     [SuiteCfg("C07", signature=_sig, nontrivial=_nontrivial, classify=_classify),
      SuiteCfg("C07e2e", signature=_sig, nontrivial=_nontrivial, classify=_classify, parts_thorough=4, timeout=900),
+     # concurrent logins on one grant (the harness and driver are C05's)
+     SuiteCfg("C05race", binary="C05", parts_thorough=4,
+              nontrivial=lambda ops, outs: any(o.startswith("wins=1") for o in outs)),
      # last, so that its (known) disagreements cannot crowd out others
      SuiteCfg("C07full", signature=_sig, nontrivial=_nontrivial, classify=_classify, parts_thorough=1, timeout=900)],
-    rule="suite C07: a case is one history on a real HopServer (grant = AddAuthGrant, login = "
+    rule="suite C05race (C05's harness): rounds of 'store a grant, 2-16 goroutines log in with it at once' - exactly "
+         "one gets it, so a single-use grant admits one session (C07_single_use over the serialised calls). "
+         "suite C07: a case is one history on a real HopServer (grant = AddAuthGrant, login = "
          "AuthorizeKeyAuthGrant + session in the state checkAuthorization leaves, exec = the head of startCodex: "
          "checkCmd through the verif shim with the clock set through thunks.TimeNow, intent = checkIntent, issue = "
          "checkIntent + AddAuthGrant as handleIntentCommunication calls them, dump = grant map and key set) against the Lean world model; <= 6 grants and <= 10 requests per history, clocks "
